@@ -92,7 +92,9 @@ class Run:
     # -- main -----------------------------------------------------------------------------------------
     async def main(self, loop: vloop.VirtualLoop) -> None:
         c = self.case
-        w = World(loop, c["nodes"] + 1)
+        # stack: the endpoint object the nodes are built on - a bare endpoint, or (as ipv8_service does) a
+        # DispatcherEndpoint over an IPv4 interface or over IPv4 + IPv6 interfaces
+        w = World(loop, c["nodes"] + 1, dispatcher=c.get("stack"))
         self.w = w
         self.loop = loop
         try:
@@ -266,12 +268,19 @@ class Run:
                 msg = b"\x01" + b"\x01\x00\x00\x00\x00\x00\x00" + b"\x01\x09\x09\x09\x09\x00\x09" + b"d4:evile"
             else:
                 msg = b"\x01" + b"\x01\x05\x05\x05\x05\x15\xb3" + b"\x01\x00\x00\x00\x00\x00\x00" + b"d4:evile"
-            if (op[3] >> 2) & 1:
+            if (op[3] >> 5) & 1:
+                # a bare cell: the message not encrypted at all and the plaintext flag left clear
+                cell = w.prefix + b"\x00" + struct.pack(">I", cid) + b"\x00\x00" + msg
+            elif (op[3] >> 2) & 1:
                 # the unauthenticated plaintext flag set, the message not encrypted at all
                 cell = w.prefix + b"\x00" + struct.pack(">I", cid) + b"\x01\x00" + msg
             else:
                 cell = w.prefix + b"\x00" + struct.pack(">I", cid) + b"\x00\x00" + keys.encrypt_str(msg, op[3] % 2)
             src = adjacent.address if (op[3] & 2 and adjacent is not None) else ("6.6.6.6", 6000)
+            dst = node.address
+            if (op[3] >> 4) & 1 and node.address6 is not None:
+                # the forged cell arrives on the node's second address family
+                dst, src = node.address6, (adjacent.address6 if (op[3] & 2 and adjacent is not None) else ("2001:db8::bad", 6000))
             before = w.routing_digest()
 
             def counters() -> dict:
@@ -283,13 +292,21 @@ class Run:
                     if ent is not None:
                         out[tbl] = (ent.bytes_up, ent.bytes_down, ent.last_activity)
                 return out
+            # whatever the honest nodes have due at this very instant (a ping round, a pending reply) happens first
+            await w.net.settle()
+            await asyncio.sleep(0)
+            await w.net.settle()
+            before = w.routing_digest()
             counters_before = counters()
+            t_before = self.loop.time()
             sent_before = sum(len(t.sent) for t in self.loop.transports)
             raw_before = sum(len(v) for v in self.raw.values())
-            w.net.inject(src, node.address, cell)
+            w.net.inject(src, dst, cell)
             await w.net.settle()
             self.same(before, i, op, "forged_cell:" + ekind)
-            if counters() != counters_before:
+            # (if virtual time moved while the network settled, periodic traffic of the honest nodes - pings, pending
+            # replies - may have touched the entry: the comparison is only made when no time has passed)
+            if self.loop.time() == t_before and counters() != counters_before:
                 self.fail("J1", "forged_cell:counters:" + ekind,
                           f"a cell forged without the circuit's keys changed the traffic / activity bookkeeping of the "
                           f"{ekind} entry from {counters_before} to {counters()}")
@@ -297,7 +314,8 @@ class Run:
                     sum(len(v) for v in self.raw.values()) != raw_before:
                 self.fail("J1", "forged_cell:" + ekind, "a cell forged without the circuit's keys caused a delivery")
             self.nontrivial = True
-            self.executed.append(("forged_cell", ekind, "plainflag" if (op[3] >> 2) & 1 else "garbage"))
+            self.executed.append(("forged_cell", ekind, "bare" if (op[3] >> 5) & 1 else "plainflag" if (op[3] >> 2) & 1 else "garbage",
+                                  "v6" if dst is not node.address else "v4"))
         elif kind == "create_live":
             from ipv8.messaging.anonymization.payload import CreatePayload
             sender = outsider if op[3] % 2 == 0 or adjacent is None else adjacent
@@ -453,6 +471,7 @@ def _strategy(max_ops: int):
     head = st.tuples(st.just("open"), i, i, i).map(list)
     return st.fixed_dictionaries({
         "nodes": st.integers(4, 6),
+        "stack": st.sampled_from([None, None, "v4", "dual", "dual"]),
         "ops": st.tuples(head, head, st.lists(op, max_size=max_ops)).map(lambda t: [t[0], t[1], *t[2]]),
     })
 
